@@ -67,10 +67,22 @@ func backSlice(v ssa.Value, visit func(ssa.Value) bool) {
 				if st, ok := r.(*ssa.Store); ok && st.Addr == y {
 					walk(st.Val)
 				}
+				// array backing a variadic / composite slice: follow the element stores
+				if ia, ok := r.(*ssa.IndexAddr); ok {
+					for _, rr := range *ia.Referrers() {
+						if st, ok := rr.(*ssa.Store); ok && st.Addr == ia {
+							walk(st.Val)
+						}
+					}
+				}
 			}
 		case *ssa.Call:
 			// reflect.Value chains: ValueOf/Elem/Field/Index/Interface derive from their receiver/argument
-			if f := y.Call.StaticCallee(); f != nil && f.Pkg != nil && f.Pkg.Pkg.Path() == "reflect" {
+			if bi, ok := y.Call.Value.(*ssa.Builtin); ok && bi.Name() == "append" {
+				for _, a := range y.Call.Args {
+					walk(a)
+				}
+			} else if f := y.Call.StaticCallee(); f != nil && f.Pkg != nil && f.Pkg.Pkg.Path() == "reflect" {
 				for _, a := range y.Call.Args {
 					walk(a)
 				}
